@@ -490,7 +490,7 @@ func (fa *funcAn) instr(st lstate, in ssa.Instruction) []lstate {
 		if x.Op == token.ARROW {
 			if f := e.chanField(x.X); f != "" && e.tokenFields[f] {
 				c := e.class(f, Token)
-				e.TokenOps = append(e.TokenOps, TokenOp{Class: c, Func: e.P.FuncName(fa.fn), Pos: x.Pos(), Blocking: true})
+				e.TokenOps = append(e.TokenOps, TokenOp{Class: c, Func: e.P.FuncName(fa.fn), Pos: x.Pos(), Blocking: true, Held: st.held})
 				st = fa.acquire(st, c, x, false)
 			}
 		}
@@ -517,7 +517,7 @@ func (fa *funcAn) instr(st lstate, in ssa.Instruction) []lstate {
 						}
 					}
 				}
-				e.TokenOps = append(e.TokenOps, TokenOp{Class: e.class(f, Token), Func: e.P.FuncName(fa.fn), Pos: x.Pos(), InSelect: true, Cancelable: cancel, Blocking: x.Blocking})
+				e.TokenOps = append(e.TokenOps, TokenOp{Class: e.class(f, Token), Func: e.P.FuncName(fa.fn), Pos: x.Pos(), InSelect: true, Cancelable: cancel, Blocking: x.Blocking, Held: st.held})
 			}
 		}
 	case *ssa.Return:
